@@ -243,7 +243,7 @@ pub fn run(run: &mut Run) {
         }
     }
     // larger populations (rayon splits them into many more jobs than threads): a reduced fault product
-    let big_sizes: Vec<usize> = if quick { vec![17, 64, 65, 257] } else { vec![7, 8, 9, 16, 17, 31, 32, 33, 64, 65, 100, 255, 256, 257, 1000] };
+    let big_sizes: Vec<usize> = if quick { (7usize..=40).chain([64, 65, 97, 257]).collect() } else { (7usize..=130).chain([255, 256, 257, 1000, 1009]).collect() };
     for &n in &big_sizes {
         let plans: Vec<Vec<usize>> = vec![vec![], vec![0], vec![n - 1], vec![n / 2], vec![0, n - 1], vec![n / 3, n / 2]];
         for plan in plans {
